@@ -392,6 +392,8 @@ class Interp:
         if name in self.sinks:
             self.sink_calls.append((name, args, kwargs))
             return None
+        if name.startswith("super()."):
+            return self._super_call(e, env, mod, args, kwargs)
         if name in self.identity:
             return args[0]
         if name == "isinstance":
@@ -462,6 +464,7 @@ class Interp:
 
     def instantiate(self, name, mro, args, kwargs):
         obj = Obj(name, classes=[c.name for c, _m in mro])
+        obj.mro = mro
         for cdef, cmod in reversed(mro):
             for st in cdef.body:
                 if isinstance(st, (ast.FunctionDef,)):
@@ -493,7 +496,35 @@ class Interp:
             return r.value
         return None
 
+    def _super_call(self, e, env, mod, args, kwargs):
+        """super().method(...) inside a method of an instantiated class."""
+        obj = env.get("self")
+        cur = getattr(self, "_fn_stack", [None])[-1]
+        if not isinstance(obj, Obj) or not hasattr(obj, "mro") or cur is None:
+            raise Undecided("super() outside an interpreted instance method")
+        cls = getattr(cur, "_class", None)
+        idx = next((i for i, (c, _m) in enumerate(obj.mro) if c is cls), None)
+        if idx is None:
+            raise Undecided("super(): defining class not in the MRO")
+        meth = e.func.attr
+        for cdef, cmod in obj.mro[idx + 1:]:
+            for st in cdef.body:
+                if isinstance(st, ast.FunctionDef) and st.name == meth:
+                    return self.run_function(st, [obj, *args], kwargs, cmod)
+        if meth == "__init__":
+            return None  # object.__init__
+        raise Raises("AttributeError", f"super().{meth}")
+
     def run_function(self, fn, args, kwargs, mod):
+        if not hasattr(self, "_fn_stack"):
+            self._fn_stack = []
+        self._fn_stack.append(fn)
+        try:
+            return self._run_function(fn, args, kwargs, mod)
+        finally:
+            self._fn_stack.pop()
+
+    def _run_function(self, fn, args, kwargs, mod):
         env = {}
         a = fn.args
         names = [x.arg for x in [*a.posonlyargs, *a.args]]
